@@ -13,6 +13,8 @@ func (v *Value) UnmarshalNBT(tagType byte, r nbt.DecoderReader) error {
 	v.tag = tagType
 	var buf [8]byte
 	switch tagType {
+	default:
+		return fmt.Errorf("unknown Tag %#02x", tagType)
 	case nbt.TagEnd:
 	case nbt.TagByte:
 		n, err := r.ReadByte()
